@@ -275,6 +275,12 @@ END { print m + 0, length(r); printf "%s %d %5.1f %x\n", "fmt", 42, 3.14159, 255
 	`BEGIN { CONVFMT = "%.3g"; x = 3.14159265; s = x ""; print s; while (("x" i++) < "x5") t = t i; print t }
 { a[NR % 3] = a[NR % 3] $0; if (NR % 2) next; print "even", NR, $NF }
 END { n = asorted(a); print n } function asorted(arr,   k, c) { for (k in arr) c++; return c }`,
+	// deep recursion (the VM's value stack and frame storage grow far beyond their initial size)
+	// and the random number generator without srand (every execution draws the same sequence)
+	`function depth(n,   a, b, c) { a = n; b = n * 2; c = a + b; return n > 0 ? depth(n - 1) + c % 7 : 0 }
+BEGIN { print depth(300); r0 = rand(); print (r0 < 1), int(rand() * 1000) }
+{ s += depth(NR * 40 % 250); x = x (rand() < 0.5 ? "h" : "t") }
+END { print s, x; for (i = 0; i < 5; i++) printf "%d ", int(rand() * 100); print "" }`,
 }
 
 // c19BrokenSources are sources that fail early, while the parser holds pending state.
@@ -691,6 +697,7 @@ type c19Actor struct {
 	steps  int
 	until  int
 	done   bool
+	abort  bool
 	res    execResult
 	out    *core.SimSink
 }
@@ -725,9 +732,17 @@ func c19RunExec(sc *c19Scn, keep bool) core.Outcome {
 	h0 := programHash(prog)
 	// sequential reference, one fresh interpreter per input
 	var want []c19ExecOut
+	var refSteps []int
 	for _, in := range sc.Inputs {
 		sink := core.NewSimSink("out", nil)
-		r := guardedLimited(prog, c19Config(sc, in, sink))
+		r, steps, overrun := guardedLimited(prog, c19Config(sc, in, sink))
+		if overrun {
+			// the single execution does not end within the cap: nothing to compare with
+			out.One(1, false)
+			out.Probe("reference_execution_exceeded_step_cap", 1)
+			return out
+		}
+		refSteps = append(refSteps, steps)
 		want = append(want, c19ExecOut{sink.String(), r.Status, r.errString(), r.Panic})
 		if h := programHash(prog); h != h0 {
 			out.One(1, true)
@@ -743,6 +758,9 @@ func c19RunExec(sc *c19Scn, keep bool) core.Outcome {
 	interp.VerifStep = func(kind interp.VerifStepKind) {
 		a := current
 		a.steps++
+		if a.abort {
+			panic("verif: aborted by the scheduler")
+		}
 		if a.steps >= a.until {
 			events <- a
 			<-a.resume
@@ -817,8 +835,18 @@ func c19RunExec(sc *c19Scn, keep bool) core.Outcome {
 				fail = &core.Failure{Oracle: "program-modified", Detail: fmt.Sprintf("the shared Program changed during concurrent executions (hash %016x -> %016x after switch %d)\nsource:\n%s", h0, h, switches, sc.Src)}
 			}
 		}
-		if a.steps > maxSteps && !a.done {
-			core.Fatal("C19: actor %d exceeded %d steps (program does not terminate?)\n%s", a.idx, maxSteps, sc.Src)
+		if !a.done && !a.abort {
+			// the VM is deterministic: an execution takes exactly the steps of the single one
+			rounds := sc.Rounds
+			if rounds < 1 {
+				rounds = 1
+			}
+			if limit := 2*rounds*refSteps[a.idx] + 1000; a.steps > limit || a.steps > maxSteps {
+				a.abort = true
+				if fail == nil {
+					fail = &core.Failure{Oracle: "concurrent-vs-sequential", Detail: fmt.Sprintf("interpreter %d of %d sharing one Program is still running after %d VM steps; a single sequential execution takes %d (x %d rounds)\nsource:\n%s", a.idx+1, n, a.steps, refSteps[a.idx], rounds, sc.Src)}
+				}
+			}
 		}
 	}
 	for i, a := range actors {
@@ -843,14 +871,16 @@ func c19RunExec(sc *c19Scn, keep bool) core.Outcome {
 	return out
 }
 
-// guardedLimited runs a program once on a fresh interpreter with a step cap (so that a
-// generated program that does not terminate is harness trouble, not a hang).
-func guardedLimited(prog *parser.Program, cfg *interp.Config) execResult {
+// guardedLimited runs a program once on a fresh interpreter with a step cap; it returns the
+// number of VM steps taken and whether the cap stopped the run.
+func guardedLimited(prog *parser.Program, cfg *interp.Config) (execResult, int, bool) {
 	steps := 0
+	overrun := false
 	interp.VerifStep = func(kind interp.VerifStepKind) {
 		steps++
 		if steps > 400000 {
-			core.Fatal("C19: sequential reference exceeded 400000 steps")
+			overrun = true
+			panic("verif: step cap")
 		}
 	}
 	defer func() { interp.VerifStep = nil }()
@@ -858,7 +888,8 @@ func guardedLimited(prog *parser.Program, cfg *interp.Config) execResult {
 	if err != nil {
 		core.Fatal("C19: New: %v", err)
 	}
-	return guarded(func() (int, error) { return it.Execute(cfg) })
+	r := guarded(func() (int, error) { return it.Execute(cfg) })
+	return r, steps, overrun
 }
 
 // ---- race layer: real goroutines, harness built with -race ----
